@@ -940,6 +940,62 @@ func runC02(c *core.Ctx) core.Meta {
 		}
 	}
 
+	// ---------------- R02.12 the shared ALU runs a DS instruction on the LDS of the executing wave ----------------
+	st12 := c.Rule("R02.12", "one emu.ALU per compute unit is shared by all execution units and keeps the LDS it works on as state: in the unit that binds it (the type whose methods call ALU.SetLDS), every ALU.Run(w) is dominated, in the same function, by a SetLDS whose argument is the LDS of that same wave w. The unit is a pipeline: a binding made when a wave is accepted is overwritten by the next wave before the first one executes, and a DS instruction of one work-group then reads and writes another work-group's LDS (emulation runs one work-group at a time and is unaffected)", 1)
+	{
+		pcu := NewPkgInfo(c, cuPkg)
+		isALU := func(cc *ssa.CallCommon, name string) bool {
+			return cc != nil && cc.IsInvoke() && cc.Method.Name() == name && namedTypeName(cc.Value.Type()) == "emu.ALU"
+		}
+		binds := map[string]bool{} // receiver types with a SetLDS call
+		for _, fn := range pcu.Funcs {
+			if fn.Signature.Recv() == nil {
+				continue
+			}
+			for _, b := range fn.Blocks {
+				for _, in := range b.Instrs {
+					if isALU(core.CallOf(in), "SetLDS") {
+						binds[namedTypeName(fn.Signature.Recv().Type())] = true
+					}
+				}
+			}
+		}
+		for _, fn := range pcu.Funcs {
+			if fn.Signature.Recv() == nil || !binds[namedTypeName(fn.Signature.Recv().Type())] {
+				continue
+			}
+			for _, b := range fn.Blocks {
+				for i, in := range b.Instrs {
+					cc := core.CallOf(in)
+					if !isALU(cc, "Run") {
+						continue
+					}
+					st12.Instances++
+					c.MarkAnalysed(fn)
+					wave := prov.Of(cc.Args[0])
+					bound := false
+					for _, b2 := range fn.Blocks {
+						for j, in2 := range b2.Instrs {
+							c2 := core.CallOf(in2)
+							if !isALU(c2, "SetLDS") {
+								continue
+							}
+							before := (b2 == b && j < i) || (b2 != b && b2.Dominates(b))
+							if before && strings.Contains(prov.Of(c2.Args[0]), strings.TrimSuffix(wave, ")")) {
+								bound = true
+							}
+						}
+					}
+					st12.Ob(bound)
+					st12.Sample("%s: ALU.Run(%s) preceded by SetLDS of the same wave: %v", core.FuncName(fn), short(wave), bound)
+					if !bound {
+						c.ReportAt("R02.12", fn, in.Pos(), "lds-not-bound-at-run:"+core.FuncName(fn), core.FuncName(fn)+" runs the shared ALU on "+short(wave)+" without binding that wave's LDS first in the same function: the ALU still points at the LDS of whichever wave was bound last (the next wave entering the pipeline), so a DS instruction acts on another work-group's LDS")
+					}
+				}
+			}
+		}
+	}
+
 	// ---------------- R02.11 load lanes are matched to a transaction register by register ----------------
 	st11 := c.Rule("R02.11", "the load coalescer creates one read per cache line that any destination dword of any active lane touches, and on return writes the registers listed in the transaction's lane info: the function that builds the lane info (stores VectorMemAccessInfo.laneInfo) walks lanes and registers, and every same-cache-line test that guards an entry takes the address of that very register (it depends on the lane index and on the register index). A test on the lane's base address alone drops the trailing dwords of a multi-dword load that straddles a cache line: those registers are never written and keep stale values, while the emulator reads every dword", 1)
 	{
